@@ -464,9 +464,8 @@ def gen_ops(rng, c, nops):
         if ptr_ok:
             kinds += ["A"] if ptr is None else ["A", "P+", "P-", "P++", "P--", "D", "DW", "DA"] + (["PR", "PW"] if r == 1 else [])
         t = rng.choice(kinds)
-        # element values stay non-negative: a negative element of an N-D / member array used in arithmetic is taken for a
-        # tagged pointer and crashes the interpreter (known finding C05-negative-element-arithmetic-segv)
-        v = rng.choice([rng.randint(0, 999), rng.randint(0, 2 ** 31 - 1)]) if rng.random() < 0.2 else rng.randint(1, 99)
+        # element values of either sign (a negative element read as the left operand of +/- crashed before fix 7c216d9)
+        v = rng.choice([rng.randint(-999, 999), rng.randint(-2 ** 31, 2 ** 31 - 1)]) if rng.random() < 0.3 else rng.randint(1, 99)
         if t in ("R", "W", "A"):
             bad_here = p_bad if t != "A" or mode == "plain" else 0.0
             idx = rand_tuple(rng, dims, bad_here)
@@ -520,7 +519,7 @@ def rand_case(rng, tier):
     if mode == "checked" and loc in ("local", "mlocal"):
         loc = "param" if loc == "local" else "mglobal"          # `checked` only works inside `return` (finding #22)
     n = size(dims)
-    init = [rng.randint(1, 999) for _ in range(n)]
+    init = [rng.randint(-99, 999) or 1 for _ in range(n)]
     if loc in ("mlocal", "mglobal") and r == 2:
         init = [0 if k < dims[0] else v for k, v in enumerate(init)]
     c = {"mode": mode, "loc": loc, "dims": dims, "init": init, "use_literal": rng.random() < 0.5, "ctx": rng.randrange(3)}
